@@ -207,6 +207,12 @@ def run(tier, seed):
         plist = plist[k:] + plist[:k]
     bound = 2
     st = explore.explore_all("checks.c07", "scenario", plist, bound, time_budget=(200 if tier == "quick" else 2400))
+    b3 = None
+    if tier == "thorough":
+        sub = [p for p in plist if p[1][0][0] != "stream" and len(p[1]) == 1 and p[2] is None and p[3] == 0 and p[4] == "cs" and p[5] == 1][:8]
+        st3 = explore.explore_all("checks.c07", "scenario", sub, 3, time_budget=420)
+        st.violations.extend(st3.violations)
+        b3 = {"configurations": len(sub), "executions": st3.executions, "by_deviations": st3.by_cost, "capped_by_time_budget": st3.capped}
     for v in st.violations:
         rep.add_violation(core.Violation(v["oracle"], v["sig"], {"params": v["params"], "choices": v["choices"], "labels": v["labels"]},
                                          "%s | params=%r deviations=%r" % (v["message"], v["params"], v["labels"])))
@@ -216,7 +222,7 @@ def run(tier, seed):
         "max_deviations_completed": bound if not st.capped else "capped",
         "distinct_outcomes": len(st.outcomes), "evaluations": st.executions, "distinct_nontrivial": len(st.outcomes),
         "rule": "states = execution-tree nodes; transitions = virtual ticks on the real stack; outcomes = per-send callback value sequences + connection states",
-        "exhaustive": not st.capped, "samples": st.samples[:4],
+        "exhaustive": not st.capped, "samples": st.samples[:4], "bound3_part": b3,
     }
     rep.assumptions = ["'accepted by the peer' is observed as 'handed to the peer application' (the harness drains deliveries in the same turn as the receive)",
                        "cb(False) timing is measured from the send() call, a lower bound of the datagram send time",
